@@ -197,11 +197,20 @@ pub fn emit_wordop(a: &Args, out: &mut Out) {
     let n = a.get_u64("n", if a.thorough() { 60_000 } else { 4_000 });
     let wd = |v: u16, m: u16| Word::verif_from_parts(v, m);
     let apply = |op: &str, x: Word, y: Word| -> Word {
-        match op { "add" => x + y, "sub" => x - y, "and" => x & y, _ => !x }
+        match op {
+            "add" => x + y, "sub" => x - y, "and" => x & y, "not" => !x,
+            // the scalar assign forms (`Word += u16` etc., used for the stack pointer): the same rule with a fully
+            // initialized right operand
+            "add+=u" => { let mut w = x; w += y.get(); w }
+            "add+=i" => { let mut w = x; w += y.get() as i16; w }
+            "sub-=u" => { let mut w = x; w -= y.get(); w }
+            _ => { let mut w = x; w -= y.get() as i16; w }
+        }
     };
     let vals: [u16; 12] = [0, 1, 2, 0x7FFF, 0x8000, 0xFFFF, 0xFFFE, 0x00FF, 0xFF00, 0x5555, 0xAAAA, 0x1234];
     for k in 0..n {
-        let op = ["add", "sub", "and", "not"][(k % 4) as usize];
+        let form = ["add", "sub", "and", "not", "add", "sub", "and", "not", "add+=u", "sub-=u", "add+=i", "sub-=i"][(k % 12) as usize];
+        let op = &form[..3];
         let enumk = k % 2 == 0;
         let pickv = |rng: &mut rand::rngs::StdRng| if rng.random_range(0..3) == 0 { rng.random() } else { vals[rng.random_range(0..vals.len())] };
         let mask = |rng: &mut rand::rngs::StdRng, maxu: u32| -> u16 {
@@ -216,22 +225,22 @@ pub fn emit_wordop(a: &Args, out: &mut Out) {
             }
         };
         let (xv, yv) = (pickv(&mut rng), pickv(&mut rng));
-        let (xm, ym) = (mask(&mut rng, 4), mask(&mut rng, 4));
+        let (xm, ym) = (mask(&mut rng, 4), if form.len() > 3 { 0xFFFF } else { mask(&mut rng, 4) });
         let (x, y) = (wd(xv, xm), wd(yv, ym));
-        let r = js::guard(|| apply(op, x, y));
+        let r = js::guard(|| apply(form, x, y));
         let rec = match r {
-            Err(()) => json!({"ev":"WordOp","kind": if enumk {"enum"} else {"rand"},"op":op,"a":[xv,xm],"b":[yv,ym],"panic":1,"r":[0,0],"rr":[]}),
+            Err(()) => json!({"ev":"WordOp","kind": if enumk {"enum"} else {"rand"},"op":op,"form":form,"a":[xv,xm],"b":[yv,ym],"panic":1,"r":[0,0],"rr":[]}),
             Ok(r) => {
                 let mut rr = vec![];
                 for _ in 0..(if enumk { 4 } else { 64 }) {
                     let xa = (xv & xm) | (rng.random::<u16>() & !xm);
                     let ya = (yv & ym) | (rng.random::<u16>() & !ym);
-                    match js::guard(|| apply(op, wd(xa, xm), wd(ya, ym))) {
+                    match js::guard(|| apply(form, wd(xa, xm), wd(ya, ym))) {
                         Ok(q) => rr.push(json!([xa, ya, q.get(), q.verif_mask()])),
                         Err(()) => rr.push(json!([xa, ya, -1, -1])),
                     }
                 }
-                json!({"ev":"WordOp","kind": if enumk {"enum"} else {"rand"},"op":op,"a":[xv,xm],"b":[yv,ym],"panic":0,
+                json!({"ev":"WordOp","kind": if enumk {"enum"} else {"rand"},"op":op,"form":form,"a":[xv,xm],"b":[yv,ym],"panic":0,
                        "r":[r.get(), r.verif_mask()],"rr":rr})
             }
         };
